@@ -305,6 +305,11 @@ class Gen:
         self.add(mk_struct("Tree", "named", [mk_field("value", ("leaf", "i32")), mk_field("children", ("vec", ("named", "Tree", []))),
                                              mk_field("parent", ("option", ("wrap", "Box", ("named", "Tree", []))))], flatten_ok=True))
         self.add(mk_struct("Wrapper", "tuple", [mk_field("_0", ("param", 0))], params=[("T", None)], flatten_ok=False))
+        # witnesses of the known classes (known_findings.json); `no_ref`: never used by generated definitions
+        self.add(mk_struct("KfInline", "named", [mk_field("t", ("vec", ("param", 0)), inline=True)], params=[("T", None)],
+                           flatten_ok=False, no_ref=True))
+        self.add(mk_struct("KfOpt", "named", [mk_field("x", ("param", 0))], params=[("T", None)], optional_fields=True,
+                           flatten_ok=False, no_ref=True))
 
     def systematic(self):
         for shape, n in (("unit", 0), ("tuple", 0), ("tuple", 1), ("tuple", 2), ("named", 0), ("named", 1), ("named", 3)):
@@ -355,6 +360,7 @@ class Gen:
                         args.append(self.ty(1))
                 insts.append(("named", d["ident"], args))
             qs += insts
+        qs.append(("named", "KfOpt", [("option", ("leaf", "i32"))]))
         # compositions of library types around user types
         for _ in range(40):
             qs.append(self.ty(2))
